@@ -17,9 +17,24 @@ CLAIMED = {
  'C12': seq('ConsumerIffAllocs as TLC invariant, C12_Step as action property; histories over 4 consumers at the four version bands under default and custom incomplete_consumer_* configuration, validated step by step.', '7.12'),
  'C19': seq('C19_Inv / C19_Step on the names sub-model and on recorded histories of class/trait creation, rename and deletion; the projection compares the real os_traits / os_resource_classes vocabularies with the tables after every request.', '7.19'),
 }
+CONC_NOTE = ('Trusted base: TLC, pv/sched.py (SQLAlchemy engine events park request threads at top-level transaction begin), '
+             'pv/project.py, SQLite; transactions are scheduled one at a time (atomic and isolated, the premise stated by the property). '
+             'Races are a fixed corpus of request pairs/triples from one start state; schedules beyond the tier limit of a race are not run.')
+
+def conc(text, design_ref):
+    return dict(engine='concur', category='model_checking', text=text, design_ref=design_ref, note=CONC_NOTE,
+                technique='TLC model checking of Tx.tla (all interleavings of each race) + replay of every distinguishable transaction interleaving on the real code, judged by TLC against API!Apply (TraceSerial.tla) and against Tx.tla outcomes')
+
+CLAIMED.update({
+ 'C05': conc('For every pair (and sampled triples) of provider-writing request kinds on one provider with equal / stale / future generations: TLC explores all interleavings of the transaction-structure model Tx.tla (C05_Tx: a generation-carrying request changes the provider only in a commit that found that generation); the same races are executed on the real application under a deterministic transaction scheduler, every distinguishable interleaving, and TLC judges each execution (commit-time generation, at most one effective writer per generation, error status justified, outcome admitted by Tx.tla).', '7.5'),
+ 'C06': conc('Races of PUT /allocations, POST /allocations and POST /reshaper on one consumer (new or existing; generations null, current, stale, next, guessed 0): Tx.tla model checked by TLC (C06_Tx), every distinguishable interleaving replayed on the real code and judged by TLC (C06_Commits, C06_AtMostOne, admissible error statuses, outcome admitted by Tx.tla).', '7.6'),
+ 'C07': conc('Allocation writes for equal and different consumers racing for one inventory and against generation-guarded inventory shrink / trait / aggregate updates: SerializableTx as TLC invariant of Tx.tla; for every replayed interleaving TLC searches the serial orders of the effective successful requests under API!Apply for one that reproduces statuses and the final database.', '7.7'),
+})
 NOT_CLAIMED = {}
 ENGINES = [
- {'name': 'seq', 'path': 'pv/seqengine.py', 'serves_properties': sorted(CLAIMED),
+ {'name': 'seq', 'path': 'pv/seqengine.py', 'serves_properties': ['C01', 'C04', 'C08', 'C09', 'C10', 'C11', 'C12', 'C19'],
   'kind_free_text': 'TLA+ specification spec/API.tla (+Data, Props); TLC model checking of spec/MC_API.tla; TLC trace validation (spec/TraceAPI.tla) of executions recorded from the real WSGI application'},
 ]
+ENGINES.append({'name': 'concur', 'path': 'pv/concur.py', 'serves_properties': ['C05', 'C06', 'C07'],
+  'kind_free_text': 'spec/Tx.tla + TxRaces.tla (transaction-structure model, TLC); pv/sched.py deterministic transaction scheduler over the real WSGI app; spec/TraceSerial.tla (TLC judges each recorded interleaving)'})
 NOTES = 'See DESIGN.md. ./check <id> --tier quick|thorough [--seed N] [--replay FILE]; exit 2 = machinery failure.'
